@@ -227,6 +227,7 @@ type Trace struct {
 	TeardownEnd                    time.Duration
 	Leaked                         []string // goroutines with library frames left after teardown
 	UnstoppedWatch                 int      // watchers the library never stopped
+	UnstoppedWatchObjs             []int    // ... and the election objects that had opened them
 	Panics                         []string // panics recovered inside harness callbacks (none expected)
 	HarnessErr                     string
 	HammerCalls                    int
